@@ -447,6 +447,38 @@ fn desc_enum(t: Tier, i: u64) -> Value {
     json!({"slots": sc.k, "fragments": sc.trains.iter().map(|t| t.cuts.len() + 1).collect::<Vec<_>>(), "merge": sc.merge, "strays": format!("{:?}", sc.strays)})
 }
 
+// ---- enumerated: every pair of fragment ids ------------------------------------------------------------
+
+/// two trains of three fragments on ids (a, b), alternating, one stray end fragment on an id aliasing
+/// train 0 in the middle; memories of 128 and of 5 slots (pairs in different slots)
+fn pair_case(i: u64) -> Option<Scenario> {
+    let (a, b, shape) = ((i % 256) as u8, ((i / 256) % 256) as u8, i / 65536);
+    let k: u8 = if shape == 0 { 128 } else { 5 };
+    if a % k == b % k {
+        return None;
+    }
+    let t = |id: u8, lab: Lab, n: u32| TrainSpec { id, lab, ptype: 0x0800 + id as u16, pdu: Pdu { len: 20 + n + id as u32 % 7, seed: 60 + id as u32 }, cuts: vec![5, 6], ext: id % 2 == 1 };
+    Some(Scenario {
+        k,
+        trains: vec![t(a, Lab::Six(ALPHA6[0]), 0), t(b, Lab::Three(ALPHA3[0]), 9)],
+        merge: vec![0, 1, 0, 1, 0, 1],
+        strays: vec![(0x8000, Stray::EndAlias(0))],
+        reuse_mask: 0,
+        as_frame: (a ^ b) & 1 == 1,
+        spare: 1,
+    })
+}
+
+fn check_pair(i: u64, st: &mut Stats) -> Result<(), String> {
+    match pair_case(i) {
+        Some(sc) => check_scenario(&sc, st),
+        None => {
+            st.class("skipped-pair-sharing-a-slot");
+            Ok(())
+        }
+    }
+}
+
 // ---- generated ------------------------------------------------------------------------------------
 
 fn gen_strategy(t: Tier) -> BoxedStrategy<Scenario> {
@@ -508,6 +540,15 @@ pub fn property() -> Property {
                 check: check_enum,
                 describe: desc_enum,
                 required_classes: &["interleaved", "stray-aliases-open-slot", "first-fragment-preempts-open-train", "first-fragment-with-re-use-label", "train-with-extensions", "walked-as-one-frame"],
+            }),
+            Box::new(EnumPart {
+                name: "every-pair-of-frag-ids",
+                rule: "two alternating 3-fragment trains (one with extensions) on every ordered pair of fragment ids that do not share a slot, in memories of 128 and of 5 slots, with a stray end fragment on an id aliasing the first train after the third packet, every other case walked as one frame; exhaustive over the pairs; same slot-ownership oracle",
+                size: |_| 2 * 65536,
+                exhaustive: |_| true,
+                check: check_pair,
+                describe: |_t, i| pair_case(i).map(|s| serde_json::to_value(s).unwrap_or(Value::Null)).unwrap_or(Value::Null),
+                required_classes: &["interleaved", "stray-aliases-open-slot", "train-with-extensions", "walked-as-one-frame"],
             }),
             Box::new(GenPart {
                 name: "random-interleavings",
